@@ -2,42 +2,147 @@
 tree / miner assignment / confirm-packet order within bounds; its behaviours are stepped through a real
 node (real blocks built by the real assembler, real signatures incl. re-encoded and outsider ones) and the
 logged chain state after every engine call is validated by the property monitor TraceConsensus.tla."""
+import copy, concurrent.futures, json, os
+import vlib
+
 LEVEL = "model_checking"
 
 MANIFEST = dict(
     level="model_checking",
     text="TLC checks QuorumOK/HeadOK/TreeOK/StableChainKept and the action property StableForward on the engine model for all trees of 3 blocks "
          "(4 in simulation), 2-4 deputies, 20 confirm packets (both signature encodings, outsider, pairs) in every arrival order, with the node as observer "
-         "and as deputy (voting lock); every transition of the state graph (thorough) or a seeded sample (quick) is replayed on a real DPoVP node and the "
-         "logged stable/head/unconfirmed tree/recovered distinct signers are validated step by step by TLC against the property monitor.",
-    note="Signers are recovered from the stored signature bytes by the projection (crypto.Ecrecover trusted). One term (no deputy-set change) in the replayed universes; "
-         "the node's background confirm goroutines are not scheduled explicitly (see C19).",
+         "and as deputy (voting lock), and across a term change inside the block universe (the deputy set and the 2/3 threshold are functions of the block's "
+         "height: genesis deputies {1,2,3} -> {2,3,4,5} and {1,2,3,4} -> {3,5}, packets signed by old-term-only, new-term-only and both-term deputies, forks across "
+         "the boundary); every transition of the state graph (thorough; a large seeded sample for the term graphs) or a seeded sample (quick) is replayed on a real "
+         "DPoVP node and the logged stable/head/unconfirmed tree/recovered distinct signers (as node identities) are validated step by step by TLC against the "
+         "property monitor, which counts for a block of height h only signers that are deputies of h's term against that term's threshold.",
+    note="Signers are recovered from the stored signature bytes by the projection (crypto.Ecrecover trusted). The term change is built from real blocks "
+         "(register / unregister transactions, the snapshot block's DeputyNodes from the real candidate ranking) with params.TermDuration = 4, InterimDuration = 1; "
+         "the blocks up to the snapshot block are a fixed stabilised prefix, the explored blocks are the last of the old term and the first of the new one "
+         "(one further configuration keeps the snapshot block itself inside the universe). The block builder uses the deputy manager of the code under test for "
+         "the miners' slots. The node's background confirm goroutines are not scheduled explicitly (see C19).",
     technique="TLA+ model checking (Consensus.tla) + replay of TLC state-graph behaviours on the real engine + TLC trace validation (TraceConsensus.tla)")
+
+
+TERM_ENV = {"VERIF_TD": "4", "VERIF_INTERIM": "1"}
+
+
+def sub(ctx, name):
+    """A view of ctx with its own scratch sub-directory, so that the configurations' pipelines can run side by side."""
+    c = copy.copy(ctx)
+    c.scratch = ctx.path("par", name, ".keep")[:-6]
+    return c
+
+
+def census(files):
+    """Vacuity control over the real traces of a term configuration (no verdict): how often a block of the old term /
+    of the new term inside the universe became stable, and how often the real engine's accept/refuse answer differs
+    from the generating model's (the monitor does not demand agreement)."""
+    c = dict(stable_old_term=0, stable_new_term=0, model_mismatch=0)
+    for f in files:
+        with open(f) as fh:
+            for ln in fh:
+                e = json.loads(ln)
+                if e["ev"] == "reset":
+                    par, dep, pl = [0] + e["parent"], e["depof"], e["pl"]
+                    hnew = next(h for h in range(pl + 1, len(dep) + 1) if dep[h - 1] != dep[pl])
+                    prev = e["stable"]
+                    continue
+                if e["stable"] != prev:
+                    prev, h, b = e["stable"], 0, e["stable"]
+                    while b:
+                        b, h = par[b], h + 1
+                    c["stable_new_term" if h >= hnew else "stable_old_term"] += 1
+                if e["ev"] in ("InsertBlock", "InsertBlockDup") and not e.get("ok") or e["ev"] == "RejectBlock" and e.get("ok"):
+                    c["model_mismatch"] += 1
+    return c
+
+
+def pipeline(ctx, name, nd, self_, newdep, limit, workers):
+    """TLC on one configuration -> tours of its state graph -> replay on a real node -> monitor."""
+    dot = ctx.path("cons_%s.dot" % name)
+    r = ctx.tlc_exhaustive("MCConsensus", "MCConsensus_%s.cfg" % name, timeout=1800, dump=dot, workers=workers, count=False)
+    env = {"VERIF_ND": str(nd), "VERIF_SELF": str(self_)}
+    if newdep:
+        env.update(TERM_ENV)
+        env["VERIF_NEWDEP"] = newdep
+        if "p3" in name:
+            env["VERIF_PL"] = "3"
+    files, summ = ctx.replay("consensus", graph=dot, shards=16, maxlen=40, limit=limit, name="consensus_" + name,
+                             env=env, timeout=3000, chunk=300)
+    ok = ctx.validate("TraceConsensusT", "TraceConsensusT.cfg", files, what=name, timeout=3000, count_behaviours=False)
+    cen = None
+    if newdep and ok:
+        cen = census(files)
+        if not (cen["stable_old_term"] and cen["stable_new_term"]):
+            raise vlib.Broken("vacuous term configuration %s: %s" % (name, cen))
+    return dict(census=cen, cfg=name, states=r["distinct"], transitions=r["generated"], nodes=summ["graph_nodes"], edges=summ["graph_edges"],
+                behaviours_replayed=summ["behaviours"], behaviours_total=summ["behaviours_total"],
+                steps_on_real_code=summ["steps"], accepted=ok, samples=summ["samples"],
+                terms=("genesis deputies 1..%d, elected at the snapshot blocks: %s" % (nd, newdep)) if newdep else "one term")
+
+
+def negative_control(ctx):
+    """Design-side negative control: with confirm signers looked up at the parent's height (TermLag = 1) the model must
+    violate QuorumOK at the term boundary - the invariant does distinguish the terms."""
+    r = ctx.tlc("MCConsensus", "MCConsensus_t34s0_neg.cfg", timeout=600, expect_ok=False, workers=2)
+    if r["inv"] != "QuorumOK":
+        raise vlib.Broken("negative control MCConsensus_t34s0_neg.cfg: expected QuorumOK to be violated, got %s\n%s" % (r["inv"], r["out"][-1500:]))
+    return dict(cfg="MCConsensus_t34s0_neg.cfg", violated=r["inv"])
 
 
 def run(ctx):
     ctx.build()
-    cfgs = [("n3d3s0", 3, 0), ("n3d3s2", 3, 2), ("n3d2s1", 2, 1)]
-    first = True
-    for name, nd, self_ in cfgs:
-        dot = ctx.path("cons_%s.dot" % name)
-        r = ctx.tlc_exhaustive("MCConsensus", "MCConsensus_%s.cfg" % name, timeout=1800, dump=dot)
-        limit = 2500 if ctx.quick() else 0
-        files, summ = ctx.replay("consensus", graph=dot, shards=16, maxlen=40, limit=limit, name="consensus_" + name,
-                                 env={"VERIF_ND": str(nd), "VERIF_SELF": str(self_)}, timeout=3000, chunk=300)
-        ok = ctx.validate("TraceConsensus", "TraceConsensus.cfg", files, what=name, timeout=3000)
-        if first:
-            ctx.cov["samples"] = summ["samples"]
-            first = False
-        ctx.extra.setdefault("graphs", []).append(dict(cfg=name, nodes=summ["graph_nodes"], edges=summ["graph_edges"],
-                                                       behaviours_replayed=summ["behaviours"], behaviours_total=summ["behaviours_total"],
-                                                       steps_on_real_code=summ["steps"], accepted=ok))
-    if not ctx.quick():
+    q = ctx.quick()
+    lim = 2500 if q else 0
+    cfgs = [("n3d3s0", 3, 0, None, lim), ("n3d3s2", 3, 2, None, lim), ("n3d2s1", 2, 1, None, lim)]
+    # term configurations (TermDuration 4, InterimDuration 1; the blocks below the boundary are a stabilised prefix):
+    #  t34: genesis {1,2,3} -> {2,3,4,5} from height 6 (threshold 2 -> 3), prefix 1..4, universe heights 5..7
+    #  t42: genesis {1,2,3,4} -> {3,5} from height 6 (threshold 3 -> 2), prefix 1..4
+    #  u34: second change: {1,2,3} -> {2,3,4} (height 6) -> {3,4,5,6} from height 10, prefix 1..8, universe heights 9..11
+    #  t34p3: as t34 with prefix 1..3: the snapshot block is inside the universe (heights 4..6; a block of height 6 is
+    #         refused until the snapshot block is stable)
+    # the node is an observer (s0), a deputy of the old term only (t34s1, u34s2) or of both terms (t42s3)
+    T34, T42, U34 = "2,3,4,5", "3,5", "2,3,4;3,4,5,6"
+    # (t42s0q: the quick-tier cut of t42s0 - height-5 blocks mined by node 3 only, 11 packets)
+    tl = 6000   # thorough: a seeded sample of every term graph (the graphs of one-term universes are replayed completely)
+    cfgs += [("t34s1", 3, 1, T34, 2000 if q else tl), ("t42s0q" if q else "t42s0", 4, 0, T42, 2000 if q else tl), ("u34s0", 3, 0, U34, 1500 if q else tl)]
+    if not q:
+        cfgs += [("t34s0", 3, 0, T34, tl), ("t42s3", 4, 3, T42, tl), ("u34s2", 3, 2, U34, tl), ("t34p3s0", 3, 0, T34, 0)]
+    only = os.environ.get("VERIF_C03_ONLY")   # debugging aid: run the named configurations only (any tier), e.g. "t42s3,u34s2"
+    if only:
+        dl = 2500 if q else tl
+        allc = {c[0]: c for c in [("t34s0", 3, 0, T34, dl), ("t42s0", 4, 0, T42, dl), ("t42s3", 4, 3, T42, dl), ("u34s2", 3, 2, U34, dl), ("t34p3s0", 3, 0, T34, dl)] + cfgs}
+        cfgs = [allc[n] for n in only.split(",")]
+    # larger design-side configurations (thorough, no replay): 4 deputies in one term; the term boundary with every miner
+    # assignment and the full packet family (old-only / new-only / both in every mix)
+    design = [] if q or only else ["MCConsensus_n3d4s0.cfg", "MCConsensus_t34s0_full.cfg", "MCConsensus_t42s0_full.cfg"]
+    # the pipelines are mostly single-threaded (TLC on a small model, tours, the monitor): run them side by side
+    with concurrent.futures.ThreadPoolExecutor(len(cfgs) if q else 4) as ex:
+        futs = [ex.submit(pipeline, sub(ctx, name), name, nd, self_, newdep, limit, 4 if q else 8)
+                for name, nd, self_, newdep, limit in cfgs]
+        dfuts = [ex.submit(sub(ctx, "d%d" % i).tlc_exhaustive, "MCConsensus", cfg, timeout=1800, workers=8, count=False) for i, cfg in enumerate(design)]
+        ctx.extra["negative_control"] = negative_control(sub(ctx, "neg"))
+        results = [f.result() for f in futs]
+        for f in dfuts:
+            r = f.result()
+            ctx.cov["states"] += r["distinct"]
+            ctx.cov["transitions"] += r["generated"]
+    for r in results:
+        ctx.cov["states"] += r["states"]
+        ctx.cov["transitions"] += r["transitions"]
+        ctx.cov["traces_validated_against_impl"] += r["behaviours_replayed"] if r["accepted"] else 0
+        ctx.extra.setdefault("graphs", []).append({k: v for k, v in r.items() if k != "samples"})
+    ctx.cov["samples"] = results[0]["samples"][:2] + results[min(3, len(results) - 1)]["samples"][:1]
+    if not q:
         ctx.cov["exhaustive"] = True
-        # larger design-side configurations (no replay of the full graph): 4 deputies; 4 blocks by simulation + replay
-        ctx.tlc_exhaustive("MCConsensus", "MCConsensus_n3d4s0.cfg", timeout=1800)
+        # 4 blocks by simulation + replay
         sim = ctx.tlc_simulate("MCConsensus", "MCConsensus_n4d3s0.cfg", num=3000, depth=14, prefix="c4")
         files, summ = ctx.replay("consensus", sim=sim, shards=16, name="consensus_sim_n4d3s0", env={"VERIF_ND": "3", "VERIF_SELF": "0"}, timeout=3000, chunk=300)
-        ctx.validate("TraceConsensus", "TraceConsensus.cfg", files, what="simulated 4-block behaviours", timeout=3000)
+        ctx.validate("TraceConsensusT", "TraceConsensusT.cfg", files, what="simulated 4-block behaviours", timeout=3000)
     ctx.assumptions += ["block universe: every parent function on 3 (simulation: 4) blocks, every miner assignment; blocks carry no transactions",
-                        "a signature is abstracted to (signer, encoding variant); real signatures are produced with the deputies' keys, variant 1 = s -> n-s"]
+                        "a signature is abstracted to (signer, encoding variant); real signatures are produced with the deputies' keys, variant 1 = s -> n-s",
+                        "term configurations: TermDuration 4 / InterimDuration 1 (package variables of /repo), the blocks below the boundary (funding, register/unregister "
+                        "transactions, snapshot block(s); heights 1..4, 1..3 or, for the second term change, 1..8) are a fixed prefix every node under test receives with the "
+                        "confirms of all deputies of each block's term; the deputy set of every height given to the monitor is the harness's own configuration, not read from the node; "
+                        "replayed term graphs use one miner per class (old-term only, both terms, new-term only) and 11-16 packets, the full miner/packet family is model-checked design-side (thorough)"]
